@@ -103,10 +103,10 @@ func (pr *PatternRouter) RouteHTTP(r *http.Request) (grpcadapter.ClientConn, HTT
 			verbIdx = len(lastPathComponent) - len(patternVerb) - 1
 		}
 
-		// path segments consisting only of verbs aren't allowed
+		// path segments consisting only of verbs aren't allowed,
+		// but other routes (e.g. ones without this verb) can still match the path.
 		if verbIdx == 0 {
-			routeErr = status.Error(codes.NotFound, http.StatusText(http.StatusNotFound))
-			return false
+			return true
 		}
 
 		matchComponents = matchComponents[:len(pathComponents)]
